@@ -104,7 +104,7 @@ def gen_cases(tier):
 
 
 def run_js(batch):
-    p = subprocess.run(["node", JS_DRIVER, JS_SRC], input=json.dumps(batch), capture_output=True, text=True, timeout=120)
+    p = subprocess.run(["node", JS_DRIVER, JS_SRC], input=json.dumps(batch), capture_output=True, text=True, timeout=900)
     if p.returncode != 0:
         raise H.HarnessError(f"node driver failed rc={p.returncode}: {p.stderr[-800:]}")
     return json.loads(p.stdout)
